@@ -60,6 +60,10 @@ def run(ctx):
             rep.ok(rule, C, f"degree {fmt(d)}: {what}")
         elif is_ground(d) or d == Z:
             rep.bad(rule, C, f"{name}: degree {fmt(d)}", f"scales with degree {fmt(d)} in the quaternion instead of {want}: {what}", f"{rel}:{fns[name].lineno}")
+        elif it.branch_conflicts:
+            ifn, k, a, b = it.branch_conflicts[0]
+            rep.bad(rule, C, ifn.test, f"under P -> s P the two sides of the value-dependent test `{norm_src(ifn.test)[:60]}` leave `{k}` with different scaling degrees "
+                    f"({fmt(a)} vs {fmt(b)}): {name} is not homogeneous of degree {fmt(want)} ({what})", f"{rel}:{ifn.lineno}")
         else:
             rep.bad(rule, C, f"{name}: degree not inferred", f"the degree of `{name}` could not be inferred any more ({fmt(d)}); {what} is undecided", f"{rel}:{fns[name].lineno}") \
                 if False else rep.note(f"{rule}: degree of {name} not inferred ({fmt(d)})")
@@ -110,6 +114,10 @@ MUTANTS = [
          old="    return np.vstack((-p, p0 * eye3 + ax2skew(p))) / 2\n", new="    return np.vstack((-p, p0 * eye3 + ax2skew(p))) / 2 / (P @ P)\n", expect="C01.R2"),
     dict(id="c01-m7", what="T_SO3_quat_P: normalisation derivative forgotten", file=ROT,
          old="        T_P += np.multiply.outer(matrix, -2 * P2_inv**2 * P)\n    return T_P", new="        T_P += np.multiply.outer(matrix, -2 * P2_inv * P)\n    return T_P", expect="C01.R2"),
+]
+MUTANTS += [
+    dict(id="c01-seed", canary=True, what="[seeded by sub-agent] Exp_SO3_quat skips the normalisation when |P|^2 is close to one", file=ROT,
+         old="    if normalize:\n        matrix /= P @ P\n    return eye3 + matrix", new="    if normalize:\n        P2 = P @ P\n        if not np.isclose(P2, 1.0):\n            matrix /= P2\n    return eye3 + matrix", expect="C01.R1"),
 ]
 NEUTRAL = [
     dict(id="c01-n1", canary=True, what="Exp_SO3_quat with the division written out", file=ROT,
